@@ -207,7 +207,7 @@ S_RULE = ("each evaluation is one complete execution of the real JADE CLI entry 
 def c01_refusal_tasks(tier):
     """A batch refused by the scheduler consumes its batch number: later rounds must not reuse it."""
     ts = rep_tasks(["C01"], (0, 1) if tier == "quick" else (0, 2), graphs=["twocomp", "fork", "diamond", "wide5"],
-                   params=[("sz1-mx2", dict(size=1, max_nodes=2)), ("sz1-mx1", dict(size=1, max_nodes=1))])
+                   params=[("sz1-mx2", dict(size=1, max_nodes=2)), ("sz1-mx1", dict(size=1, max_nodes=1)), ("sz1-mxN", dict(size=1, max_nodes=None))])
     for t in ts:
         t["fault"] = dict(plan="c12", kill_nodes=False)
         t["id"] += "-refusals"
@@ -473,6 +473,8 @@ def _c0304(prop, tier):
         tasks += manual_submitter_tasks([prop], (1, 0), ["pair", "chain2", "fork", "indep3"])
         bounds = "as quick plus exit codes {0,2,255}; all REP graphs x single failures x flags at 2 preemptions"
     tasks += resub_slice_tasks([prop + "R"], tier, prop.lower())
+    if prop == "C04" or tier == "thorough":
+        tasks += resub_mixed_tasks([prop + "R"], tier, prop.lower())
     bounds += "; resubmission histories (every 3-job DAG x failing job x flags, refused batch, reruns succeed): final results again complete and all successful"
     return explore_check(prop, tier, tasks, S_RULE, COMMON_ASSUMPTIONS, dict(bounds=bounds))
 
@@ -961,6 +963,32 @@ def resub_slice_tasks(oracles, tier, prefix, with_groups_file=False):
                         sc["resubmit_groups"] = sc2["groups"]
                     tasks.append(dict(id=f"{prefix}-resub-g3.{gi}-f{f}-c{cancel[0]}-{tag}{'-s' if with_groups_file else ''}", scen=sc,
                                       oracles=["Obs"] + oracles, budget=(0, 0), cls="resubmission-slice"))
+    return tasks
+
+
+def resub_mixed_tasks(oracles, tier, prefix):
+    """Resubmission histories with per-job cancel flags and a (possibly different) job failing in the second run."""
+    tasks = []
+    for gi, bb in enumerate(S.dags(3)):
+        if sum(len(l) for l in bb) < 2:
+            continue
+        for f1 in range(3):
+            for f2 in (None, 0, 1, 2):
+                if f2 == f1:
+                    continue
+                for fl in itertools.product((0, 1), repeat=3):
+                    if tier == "quick" and (sum(fl) in (0, 3) or (gi + f1 + (f2 or 0) + sum(fl)) % 2):
+                        continue
+                    actors = [rec_actor(3), dict(name="resub", argv=resub_argv(1, 1, 0), host="login1", guard="complete"),
+                              dict(name="rec2", argv=["jade", "try-submit-jobs", "{out}"], host="login2", guard="idle_incomplete", after="resub", repeat=5)]
+                    sc = mk_scen(bb, dict(size=1, max_nodes=None), cancel=fl, actors=actors)
+                    codes = {S.NAMES[f1]: [1, 0]}
+                    if f2 is not None:
+                        codes[S.NAMES[f2]] = [0, 1]
+                    sc["exit_codes"] = codes
+                    sc["exit_by_epoch"] = True
+                    tasks.append(dict(id=f"{prefix}-resubmix-g3.{gi}-f{f1}-s{f2}-c{''.join(map(str, fl))}", scen=sc,
+                                      oracles=["Obs"] + oracles, budget=(0, 0), cls="resubmission-slice+mixed"))
     return tasks
 
 
